@@ -141,3 +141,69 @@ PLANS['C04'] = {
     'note': 'trusted: refbin.py (validated against the document examples and 4 Studio files), errata resolutions; the reader is only shown files the reference encoder can produce',
     'technique': 'independent spec encoder -> real reader -> dump comparison (runtime differential monitor)',
 }
+
+
+def _domops(pid):
+    def run(m, tier, seed, rundir, extra):
+        count = int(extra.get('count', 6000 if tier == 'quick' else 300000))
+        res = core.run_sharded('domops', ['--prop', pid, '--seed', seed, '--count', count], SH, rundir)
+        m.add_results(res, 'domops random')
+        ex = [('2', '2', '0')] if tier == 'quick' else [('2', '3', '0'), ('2', '2', '1'), ('3', '2', '0')]
+        for k, (init, steps, rich) in enumerate(ex):
+            sub = os.path.join(rundir, f'ex{k}')
+            res = core.run_sharded('domops', ['--prop', pid, '--mode', 'exhaustive', '--init', init, '--steps', steps, '--rich', rich,
+                                              '--uids', '1'], SH, sub, timeout=7200)
+            m.add_results(res, f'domops exhaustive init={init} steps={steps} rich={rich}')
+            m.extra.setdefault('exhaustive_scopes', []).append({'dom_count': 2, 'initial_inserts': int(init), 'further_operations': int(steps),
+                                                               'ref_properties': rich == '1', 'unique_id_pool': 1})
+        if pid == 'C12':
+            import sys
+            sys.path.insert(0, os.path.join(core.VERIF, 'lib'))
+            from monitors import c12
+            fp = os.path.join(rundir, 'c12files.jsonl')
+            c12.make(fp, seed, 200 if tier == 'quick' else 5000)
+            m.add_results([core.run_vh(['c12read', '--in', fp], os.path.join(rundir, 'c12read.json'))], 'c12read')
+            os.remove(fp)
+            m.add_results([core.run_vh(['uidnow', '--threads', 16, '--per', 50000 if tier == 'quick' else 1000000],
+                                       os.path.join(rundir, 'uidnow.json'))], 'uidnow')
+    return run
+
+
+_DOM_RULE = ('histories of insert / destroy / transfer_within / transfer / clone_within / clone_into_external / clone_multiple_into_external over 1-3 real WeakDoms, '
+             'arguments drawn within the documented preconditions (moving an instance under its own descendant is excluded: no tree can represent it); '
+             'random histories of 20-400 operations (few live nodes, many operations) plus the exhaustive enumeration of every history in the small scopes '
+             'listed under exhaustive_scopes (all valid argument choices at every step); after EVERY step each DOM is walked through the public API and compared '
+             'with a reference model executing the documented meaning of the step; ')
+
+for _pid, _what, _nt, _claim, _tech in [
+    ('C09', 'monitor: parent/children agreement, listed exactly once, no ancestor cycles, parentless root, destroyed/transferred-away referents unresolvable, '
+            'stored-instance count, descendants_of = reachable set once each with parents first',
+     'non-trivial = history with >=2 operations; distinct = hash of the operation log',
+     'held after every step of N histories: every DOM stayed a well-formed forest under the public-API walk', 'structural invariant monitor at quiescent points (after every operation)'),
+    ('C10', 'monitor: real DOMs equal the reference model under the referent bijection (parent, ordered children, name, class, every property), insert returns the subtree root, '
+            'instances conserved across transfer',
+     'non-trivial = history containing a move whose source parent had >=2 children and whose destination already had a child; distinct = hash of the operation log',
+     'held after every step of N histories: the real DOMs equalled a reference model of the documented effect (append-last order, untouched instances untouched, conservation)',
+     'lock-step reference model comparison after every operation'),
+    ('C11', 'monitor at every clone: copies parentless, fresh pairwise-distinct referents, isomorphic (shape, order, names, classes, values), source unchanged, every Ref property '
+            'classified by the model (inside cloned set -> copy; outside but present in destination -> kept; else null), including refs between subtrees cloned together',
+     'non-trivial = history with >=2 operations; distinct = hash of the operation log',
+     'held on every clone of N histories incl. all Ref placements of the small scope with ref_properties=true', 'lock-step reference model comparison (clone rewrite rule) after every clone'),
+    ('C12', 'monitor: no id held twice in a DOM; bookkeeping set (cfg hook) == ids held; for the group entering a DOM: exactly one holder keeps a value not held by the destination, none keeps a '
+            'held one, regenerated ids fresh; ids of instances not entering unchanged; plus decoded DOMs of files containing duplicate ids (binary via the independent encoder, XML text) '
+            'and 16 threads x UniqueId::now()',
+     'non-trivial = history with >=2 operations / file with duplicate ids; distinct = hash of log or file',
+     'held after every step of N histories with ids drawn from a pool of 2-4 values (forced collisions), on decoded DOMs, and on 8e5+ concurrent UniqueId::now() values (all distinct)',
+     'id-set invariant monitor after every operation + offline uniqueness check over recorded generator output'),
+]:
+    PLANS[_pid] = {
+        'level': 'exploration',
+        'rule': _DOM_RULE + _what + '; ' + _nt,
+        'floor': {'quick': 5000, 'thorough': 200000},
+        'exhaustive': {},
+        'assumptions': ['reference model in harness/src/domops.rs written from the doc comments of WeakDom', 'public API walk + cfg(rbx_dom_verif) hooks verif_unique_ids / verif_instance_count'],
+        'run': _domops(_pid),
+        'claim': _claim + '. Exploration: random histories + exhaustive small scopes; says nothing about histories outside them.',
+        'note': 'trusted: the reference model and generators (domops.rs); argument space restricted to documented preconditions',
+        'technique': _tech,
+    }
